@@ -2,6 +2,7 @@ import Capella.Driver.Util
 import Capella.Model.Svg
 import Capella.Model.SvgDefs
 import Capella.Model.Wrap
+import Capella.Model.SvgText
 import Capella.Gen.StylesAux
 namespace Capella.Driver.Svg
 open Lean Capella.Driver Capella.Svg
@@ -151,6 +152,11 @@ def handle (op : String) (j : Json) : Except String Json := do
     let spaces ← getStr j "spaces"
     let lines ← getStrList j "lines"
     pure (jstrs (Capella.Wrap.wordWrap (fun c => spaces.contains c) (extW tbl) (← ratKey j "width") lines))
+  | "svg.escape" =>
+    let t ← getStr j "s"
+    pure (Json.mkObj [("text", jstr (Capella.SvgText.escText t)), ("attr", jstr (Capella.SvgText.escAttr t)),
+      ("legal", Json.bool (t.all Capella.SvgText.xmlLegal)),
+      ("unescText", match Capella.SvgText.unesc (Capella.SvgText.escText t) with | some r => jstr r | none => Json.null)])
   | "svg.label" =>
     let tbl ← extTable j
     let spaces ← getStr j "spaces"
